@@ -126,9 +126,15 @@ func (g *c14Graph) canon1(ctx *c14Ctx, e ast.Expr, at *c14Node) *c14Val {
 		if f := fieldOf(info, x); f != nil {
 			raw := g.canon(ctx, x.X, at)
 			b := c14StripAddr(raw)
-			if raw.k == 'L' { // a struct held by value (not reached through a pointer, whose fields may be assigned later)
-				if v := g.fieldOfLiteral(raw, f); v != nil {
-					return v // a field of a struct value known to be a particular composite literal
+			// a field of a struct value known to be a particular composite literal: held by value, or reached through
+			// `&T{…}` when nothing in the package ever assigns that field (a struct that only carries captured variables)
+			lit := raw
+			if raw.k == '&' && raw.x != nil && raw.x.k == 'L' && !g.e.fieldAssigned(f) {
+				lit = raw.x
+			}
+			if lit.k == 'L' && !g.e.keepStruct[namedPath(lit.typ)] {
+				if v := g.fieldOfLiteral(lit, f); v != nil {
+					return v
 				}
 			}
 			return &c14Val{k: 'f', key: fmt.Sprintf("f%d(%s)", g.e.oid(f), b.key), obj: f, x: b, at: at}
@@ -236,7 +242,7 @@ func (g *c14Graph) resolveVar(ctx, owner *c14Ctx, o types.Object, at *c14Node) *
 		if c == nil {
 			return plain
 		}
-		if c.g != og || c.fn.lit != nil {
+		if c.g != og {
 			if c.callNode == nil {
 				return plain
 			}
@@ -289,10 +295,11 @@ func (g *c14Graph) writes(n *c14Node, owner *c14Ctx, o types.Object) bool {
 		}
 		return false
 	}
-	if n.ctx != owner {
+	// the node may belong to a followed function literal that captures the variable from owner
+	if n.ctx != owner && (n.ctx.fn.lit == nil || c14OwnerCtx(n.ctx, o) != owner) {
 		return false
 	}
-	info := owner.fn.info
+	info := n.ctx.fn.info
 	is := func(e ast.Expr) bool { return e != nil && objOf(info, e) == o }
 	if n.tail() {
 		if n.blk.Kind == cfg.KindRangeLoop {
@@ -317,7 +324,7 @@ func (g *c14Graph) writes(n *c14Node, owner *c14Ctx, o types.Object) bool {
 			e = sel.X
 		}
 	}
-	switch x := n.ast.(type) {
+	switch x := c14EffectAst(n).(type) {
 	case *ast.AssignStmt:
 		for _, l := range x.Lhs {
 			if is(l) || isField(l) {
@@ -394,17 +401,18 @@ func (g *c14Graph) defValue(d *c14Node, owner *c14Ctx, o types.Object, use *c14N
 		}
 		return nil
 	}
-	info := owner.fn.info
+	dctx := d.ctx // the definition may sit in a followed function literal that captures the variable
+	info := dctx.fn.info
 	tuple := func(rhs ast.Expr, i int) *c14Val {
 		if call, ok := ast.Unparen(rhs).(*ast.CallExpr); ok {
-			if v := g.followedResult(owner, call, i, use); v != nil {
+			if v := g.followedResult(dctx, call, i, use); v != nil {
 				return v
 			}
 		}
-		t := g.canon(owner, rhs, d)
+		t := g.canon(dctx, rhs, d)
 		return &c14Val{k: 't', key: fmt.Sprintf("t%d(%s)", i, t.key), idx: i, x: t, at: d}
 	}
-	switch x := d.ast.(type) {
+	switch x := c14EffectAst(d).(type) {
 	case *ast.AssignStmt:
 		if x.Tok != token.ASSIGN && x.Tok != token.DEFINE {
 			return nil
@@ -415,11 +423,11 @@ func (g *c14Graph) defValue(d *c14Node, owner *c14Ctx, o types.Object, use *c14N
 			}
 			if len(x.Lhs) == len(x.Rhs) {
 				if call, ok := ast.Unparen(x.Rhs[i]).(*ast.CallExpr); ok {
-					if v := g.followedResult(owner, call, 0, use); v != nil {
+					if v := g.followedResult(dctx, call, 0, use); v != nil {
 						return v
 					}
 				}
-				return g.canon(owner, x.Rhs[i], d)
+				return g.canon(dctx, x.Rhs[i], d)
 			}
 			if len(x.Rhs) == 1 {
 				return tuple(x.Rhs[0], i)
@@ -432,7 +440,7 @@ func (g *c14Graph) defValue(d *c14Node, owner *c14Ctx, o types.Object, use *c14N
 			}
 			switch {
 			case len(x.Values) == len(x.Names):
-				return g.canon(owner, x.Values[i], d)
+				return g.canon(dctx, x.Values[i], d)
 			case len(x.Values) == 1:
 				return tuple(x.Values[0], i)
 			case len(x.Values) == 0:
